@@ -32,7 +32,7 @@ LEVEL = "exploration"
 
 JET_INV = {
     "lemma": ["LemmaMulDiv", "LemmaLnMul", "LemmaComposeMul", "LemmaComposeLn", "LemmaSym"],
-    "default": ["GradFormula", "HessFormula", "HesspFormula", "CachedIntFormula", "CachedAmpFormula"],
+    "default": ["GradFormula", "HessFormula", "HesspFormula", "CachedIntFormula", "CachedAmpFormula", "MixGradFormula"],
     "cfit": ["CfitGradFormula", "CfitHessFormula"],
     "bound": ["BoundGradFormula", "BoundHessFormula", "BoundHesspFormula"],
     "constr": ["ConstrGradFormula", "ConstrHessFormula"],
@@ -470,6 +470,17 @@ def choose(scenarios, rng, budget, quick):
     cand = sorted([s for s in pools.get("default", []) if s["constr"] == "head_and_tied" and s["shape"] == "columns" and s["batch"] == "single" and s["floating"] == "couplings" and s not in chosen],
                   key=lambda s: (richness(s), json.dumps(s, sort_keys=True)))
     chosen += cand[:1]
+    # always: the mixed likelihood (MixLogLikehoodFCN) over the extended and over the default model, batches that
+    # split the merged sample
+    for k, rich in (("mix_extended", True), ("mix_default", False)) + (() if quick else (("mix_extended", False), ("mix_default", True))):
+        cand = sorted([s for s in pools.get(k, []) if s["batch"] == "ragged" and s["floating"] == "couplings" and s not in chosen],
+                      key=lambda s: ((-richness(s) if rich else richness(s)), json.dumps(s, sort_keys=True)))
+        chosen += cand[:1]
+    fast = [x for x in fast if not x.startswith("mix_")]
+    if quick:
+        # quick tier: `simple` (BaseCustomModel with one normalisation factor) is represented by constr_frac, which runs
+        # the same code with two factors and the once-per-data-set term
+        fast = [x for x in fast if x != "simple"]
     for k in pools:
         pools[k] = [s for s in pools[k] if s["shape"] == "columns" or s in chosen]
     # kinds not yet present come first in the rotation
